@@ -76,21 +76,28 @@ def select(harnesses, prop, tier):
     return out
 
 
+def load_harness_text(u, repo):
+    """harness.rs of the unit, or -- for units whose harnesses are generated from the source (one per
+    macro invocation, say) -- the text returned by unit.gen_harness(repo)."""
+    if hasattr(u["mod"], "gen_harness"):
+        return u["mod"].gen_harness(repo)
+    return open(os.path.join(u["dir"], "harness.rs"), encoding="utf-8").read()
+
+
 def prepare_kani_unit(u, prop, tier, only):
-    hpath = os.path.join(u["dir"], "harness.rs")
-    htext = open(hpath, encoding="utf-8").read()
+    repo = Repo()
+    subs = Subs()
+    htext = load_harness_text(u, repo)
     metas = K.parse_harness_meta(htext)
     sel = select(metas, prop, tier)
     if only:
         sel = [h for h in sel if f"{u['name']}.{h['name']}" in only or u["name"] in only]
     if not sel:
         return None
-    repo = Repo()
-    subs = Subs()
     files = u["mod"].build(repo, subs)
     files = dict(files)
     files["src/harness.rs"] = htext
-    crate_dir = K.generate_crate(u, files, [h["name"] for h in metas])
+    crate_dir = K.generate_crate(u, files, metas)
     return {"unit": u, "crate_dir": crate_dir, "harnesses": sel, "repo_files": repo.read_files, "subs": subs.log}
 
 
@@ -336,13 +343,13 @@ def do_replay(prop, path):
     u = units[rec["unit"]]
     if u["kind"] == "smt":
         return S.replay(u, rec)
-    htext = open(os.path.join(u["dir"], "harness.rs")).read()
+    repo, subs = Repo(), Subs()
+    htext = load_harness_text(u, repo)
     metas = K.parse_harness_meta(htext)
     h = [m for m in metas if m["name"] == rec["harness"]][0]
-    repo, subs = Repo(), Subs()
     files = dict(u["mod"].build(repo, subs))
     files["src/harness.rs"] = htext
-    crate_dir = K.generate_crate(u, files, [m["name"] for m in metas])
+    crate_dir = K.generate_crate(u, files, metas)
     r = K.native_replay(crate_dir, u, h, rec["values"], "dev")
     print(json.dumps(r, indent=1))
     if r["outcome"] in ("REPRODUCED", "HANG"):
